@@ -11,3 +11,5 @@ func verifVM(vm *vm) {}
 func verifErrClass(err error) int { return 0 }
 
 func verifB(b bool) int { return 0 }
+
+func verifHeld(lc *lineCalc) int { return 0 }
